@@ -53,7 +53,7 @@ void read_session_map(char *dirname, struct uftrace_sym_info *sinfo, char *sid)
 		build_id[0] = '\0';
 
 		/* skip anon mappings */
-		if (sscanf(buf, "%" PRIx64 "-%" PRIx64 " %s %*x %*x:%*x %*d %s %s", &start, &end,
+		if (sscanf(buf, "%" PRIx64 "-%" PRIx64 " %4s %*x %*x:%*x %*d %s %50s", &start, &end,
 			   prot, path, build_id) < 4) {
 			pr_dbg("sscanf failed\n");
 			continue;
